@@ -18,6 +18,13 @@ Theorem C09_preloaded_no_loader : forall (V : Type) (load : N -> option V) n cp,
 Proof. intros V load n cp H. exact (proj2 (init_preload_inv V load n cp H)). Qed.
 Print Assumptions C09_preloaded_no_loader.
 
+(* preloading is all or nothing: a face asked to preload its glyphs is refused exactly when it has no glyphs or some glyph below the
+   glyph count cannot be read -- it is never handed out in on-demand mode (which would write to the shared cache under threads) *)
+Theorem C09_preload_refused_iff : forall (V : Type) (load : N -> option V) n,
+  init_preload V load n = None <-> n = 0 \/ exists g, g < n /\ load g = None.
+Proof. exact init_preload_refused_iff. Qed.
+Print Assumptions C09_preload_refused_iff.
+
 Example C09_example :
   let load := fun g => if g <? 3 then Some (g + 7) else None in
   match init_preload N load 3 with
